@@ -3,7 +3,7 @@ from xml.etree import ElementTree as ET
 
 from hypothesis import strategies as st
 
-from vlib import env, drive, gen, history, build as B, access
+from vlib import env, drive, gen, history, build as B, access, xmlcmp
 from vlib.access import call
 from vlib.findings import Collector, h64
 from vlib.step import Failure
@@ -20,7 +20,7 @@ RULE = (
     "(b) Hypothesis single steps and histories (states reached by merges, notably roStorySend bodies "
     "whose storyItem children become items).  Paragraphs with inline child elements are excluded by "
     "construction.  Oracle, from the direct children of each <story> in ro.xml: body = every <p> (its "
-    "text, '' when empty) and every <item> (the library's Item must wrap exactly that element) in "
+    "text, '' when empty) and every <item> (the library's Item must wrap an element equal to it) in "
     "document order; script = stripped text of each <p> whose text is non-empty after stripping and "
     "not wrapped in () or <>; RunningOrder.script / body = concatenation over stories in running "
     "order.  Non-trivial = >= 2 stories and at least one filtered paragraph kind (empty / whitespace / "
@@ -68,7 +68,8 @@ def _body_eq(lib, exp):
             if not isinstance(got, str) or got != val:
                 return False
         else:
-            if isinstance(got, str) or getattr(got, 'xml', None) is not val:
+            gx = getattr(got, 'xml', None)
+            if isinstance(got, str) or gx is None or xmlcmp.canon(gx) != xmlcmp.canon(val):
                 return False
     return True
 
